@@ -244,6 +244,13 @@ func (pn *parsNorm) condKey(e ast.Expr) string {
 				}
 			}
 		}
+		// one orientation for order comparisons: a > b is b < a
+		switch op {
+		case token.GTR:
+			return r + "<" + l
+		case token.GEQ:
+			return r + "<=" + l
+		}
 		return l + op.String() + r
 	}
 	return pn.c.canon(info, e, nil)
@@ -274,6 +281,16 @@ func (pn *parsNorm) stmts(list []ast.Stmt) string {
 				return strings.Join(out, " ; ")
 			}
 		}
+		// `if C { A; continue }` followed by the rest  ==  `if C { A } else { rest }`
+		if is, ok := s.(*ast.IfStmt); ok && is.Else == nil && is.Init == nil && len(is.Body.List) > 1 && !errGuard(pn.info, is.Cond) {
+			if br, ok := is.Body.List[len(is.Body.List)-1].(*ast.BranchStmt); ok && br.Tok == token.CONTINUE && br.Label == nil {
+				synth := &ast.IfStmt{Cond: is.Cond, Body: &ast.BlockStmt{List: is.Body.List[:len(is.Body.List)-1]}, Else: &ast.BlockStmt{List: list[i+1:]}}
+				if t := pn.stmt(synth); t != "" {
+					out = append(out, t)
+				}
+				return strings.Join(out, " ; ")
+			}
+		}
 		if t := pn.stmt(s); t != "" {
 			out = append(out, t)
 		}
@@ -290,6 +307,15 @@ func negKey(k string) string {
 		return strings.Replace(k, "==", "!=", 1)
 	case strings.Contains(k, "!=") && !strings.Contains(k, "&&") && !strings.Contains(k, "||"):
 		return strings.Replace(k, "!=", "==", 1)
+	}
+	if !strings.Contains(k, "&&") && !strings.Contains(k, "||") && !strings.Contains(k, ">") {
+		// !(a < b) is b <= a ; !(a <= b) is b < a
+		if i := strings.Index(k, "<="); i > 0 && strings.Count(k, "<") == 1 {
+			return k[i+2:] + "<" + k[:i]
+		}
+		if i := strings.Index(k, "<"); i > 0 && strings.Count(k, "<") == 1 {
+			return k[i+1:] + "<=" + k[:i]
+		}
 	}
 	return "!" + k
 }
